@@ -794,10 +794,15 @@ impl VirtualFileSystem for Memfs {
     /// ```
     fn all_dirs<T: AsRef<Path>>(&self, path: T) -> RvResult<Vec<PathBuf>> {
         let mut paths: Vec<PathBuf> = vec![];
-        if !self.is_dir(&path) {
-            return Err(PathError::is_not_dir(&path).into());
-        }
-        for entry in self.entries(path)?.min_depth(1).sort_by_name().dirs() {
+        let entries = {
+            // Check and snapshot under a single guard
+            let guard = self.read_guard();
+            if !self._is_dir(&guard, &path) {
+                return Err(PathError::is_not_dir(&path).into());
+            }
+            self._entries(&guard, &path)?
+        };
+        for entry in entries.min_depth(1).sort_by_name().dirs() {
             let entry = entry?;
             paths.push(entry.path_buf());
         }
@@ -827,10 +832,15 @@ impl VirtualFileSystem for Memfs {
     /// ```
     fn all_files<T: AsRef<Path>>(&self, path: T) -> RvResult<Vec<PathBuf>> {
         let mut paths: Vec<PathBuf> = vec![];
-        if !self.is_dir(&path) {
-            return Err(PathError::is_not_dir(&path).into());
-        }
-        for entry in self.entries(path)?.min_depth(1).sort_by_name().files() {
+        let entries = {
+            // Check and snapshot under a single guard
+            let guard = self.read_guard();
+            if !self._is_dir(&guard, &path) {
+                return Err(PathError::is_not_dir(&path).into());
+            }
+            self._entries(&guard, &path)?
+        };
+        for entry in entries.min_depth(1).sort_by_name().files() {
             let entry = entry?;
             paths.push(entry.path_buf());
         }
@@ -862,10 +872,15 @@ impl VirtualFileSystem for Memfs {
     /// ```
     fn all_paths<T: AsRef<Path>>(&self, path: T) -> RvResult<Vec<PathBuf>> {
         let mut paths: Vec<PathBuf> = vec![];
-        if !self.is_dir(&path) {
-            return Err(PathError::is_not_dir(&path).into());
-        }
-        for entry in self.entries(path)?.min_depth(1).sort_by_name() {
+        let entries = {
+            // Check and snapshot under a single guard
+            let guard = self.read_guard();
+            if !self._is_dir(&guard, &path) {
+                return Err(PathError::is_not_dir(&path).into());
+            }
+            self._entries(&guard, &path)?
+        };
+        for entry in entries.min_depth(1).sort_by_name() {
             let entry = entry?;
             paths.push(entry.path_buf());
         }
@@ -1271,10 +1286,15 @@ impl VirtualFileSystem for Memfs {
     /// ```
     fn dirs<T: AsRef<Path>>(&self, path: T) -> RvResult<Vec<PathBuf>> {
         let mut paths: Vec<PathBuf> = vec![];
-        if !self.is_dir(&path) {
-            return Err(PathError::is_not_dir(&path).into());
-        }
-        for entry in self.entries(path)?.min_depth(1).max_depth(1).sort_by_name().dirs() {
+        let entries = {
+            // Check and snapshot under a single guard
+            let guard = self.read_guard();
+            if !self._is_dir(&guard, &path) {
+                return Err(PathError::is_not_dir(&path).into());
+            }
+            self._entries(&guard, &path)?
+        };
+        for entry in entries.min_depth(1).max_depth(1).sort_by_name().dirs() {
             let entry = entry?;
             paths.push(entry.path_buf());
         }
@@ -1366,10 +1386,15 @@ impl VirtualFileSystem for Memfs {
     /// ```
     fn files<T: AsRef<Path>>(&self, path: T) -> RvResult<Vec<PathBuf>> {
         let mut paths: Vec<PathBuf> = vec![];
-        if !self.is_dir(&path) {
-            return Err(PathError::is_not_dir(&path).into());
-        }
-        for entry in self.entries(path)?.min_depth(1).max_depth(1).sort_by_name().files() {
+        let entries = {
+            // Check and snapshot under a single guard
+            let guard = self.read_guard();
+            if !self._is_dir(&guard, &path) {
+                return Err(PathError::is_not_dir(&path).into());
+            }
+            self._entries(&guard, &path)?
+        };
+        for entry in entries.min_depth(1).max_depth(1).sort_by_name().files() {
             let entry = entry?;
             paths.push(entry.path_buf());
         }
@@ -1845,10 +1870,15 @@ impl VirtualFileSystem for Memfs {
     /// ```
     fn paths<T: AsRef<Path>>(&self, path: T) -> RvResult<Vec<PathBuf>> {
         let mut paths: Vec<PathBuf> = vec![];
-        if !self.is_dir(&path) {
-            return Err(PathError::is_not_dir(&path).into());
-        }
-        for entry in self.entries(path)?.min_depth(1).max_depth(1).sort_by_name() {
+        let entries = {
+            // Check and snapshot under a single guard
+            let guard = self.read_guard();
+            if !self._is_dir(&guard, &path) {
+                return Err(PathError::is_not_dir(&path).into());
+            }
+            self._entries(&guard, &path)?
+        };
+        for entry in entries.min_depth(1).max_depth(1).sort_by_name() {
             let entry = entry?;
             paths.push(entry.path_buf());
         }
